@@ -25,11 +25,22 @@ PROPS["C18"] = {
     ],
 }
 
+PROPS["C02"] = {
+    "kani": "c02",
+    "level": "model_checking",
+    "explanation": "Bounded model checking (Kani/CBMC) of the real row-level predicate code on both storage tiers: NumericCondition / LogicalCondition evaluated over the real typed ColumnValues views (segment tier) and over a real Event (memory tier) are each compared with the mathematical comparison for every 64-bit value, literal and operator, so the two tiers are shown to agree; literal typing in add_where_clause is checked the same way.",
+    "outside": [
+        "zone / segment pruning (C08 covers the pruning structures Kani reaches; zone_collector, zone_combiner, index_planner, field_selector are HashMap / I-O bound)",
+        "string, enum and temporal literals (chrono / serde_json parsing does not finish under Kani)",
+        "multi-row zones and the std::simd fast path evaluate_numeric_simd (reached only through PreparedAccessor over a HashMap)",
+        "layouts reachable by flush / compaction / restart, shard fan-out",
+    ],
+}
+
 # Properties not (or not yet) claimed, each with the reason. Entries are removed from here
 # when a check for the property is registered in PROPS.
 NOT_APPLICABLE = {
     "C01": "check not built yet (planned: mirsym ordering/guard obligations)",
-    "C02": "check not built yet (planned: Kani differential of memory vs segment predicate paths)",
     "C03": "check not built yet (planned: mirsym publication-order obligations)",
     "C04": "order is decided by schedules of concurrent flows, BinaryHeap tie-breaking over HashMap-materialised rows and a BTreeMap<String,Vec<Event>> memtable; none of these finishes under Kani (3-row merger > 25 min, 3 inserts > 15 min) and no schedule explorer belongs to this technique",
     "C05": "check not built yet",
